@@ -12,15 +12,17 @@ PROPS = ["C02/Props.v"]
 DRIVER = "c02_driver.py"
 CLAUSE = {2: "called-without-change", 3: "called-for-rejected-or-read", 4: "change-not-notified",
           5: "assignment-undone", 6: "old-new-untruthful", 7: "mechanisms-disagree"}
-NPOOL, REJ, ALIAS = 16, 9, 10
+NPOOL, REJ, ALIAS = 20, 9, 10
+DRANGE_OK, DRANGE_REJ, DRANGE_DEFAULT = [12, 16, 17, 18], 19, 17     # dynamic Range(0..10, value=5): ints in / out of range
 POOL_NAMES = ["Eq(1)#a", "Eq(1)#b", "Eq(2)", "nan#a", "nan#b", "EqRaises", "None", "[1]#a", "[1]#b", "rejected", "converted-to-Eq(1)#a",
-              "Incoherent", "0", "0.0", "ArrayLike(no truth value)", "BadRepr(str/repr raise)"]
+              "Incoherent", "0", "0.0", "ArrayLike(no truth value)", "BadRepr(str/repr raise)", "3", "5", "7", "99"]
 MECH = {"any": "StaticAny", "changed": "StaticChanged", "fired": "StaticFired", "otc": "Otc", "otcany": "OtcAny",
         "obs": "Observe", "dotc": "Otc", "dobs": "Observe", "otcm": "Otc", "obsm": "Observe"}
 ONCE = ("otc_once", "otcany_once", "obs_once")      # handlers that unregister themselves while being notified
 MECH.update({"otc_once": "Otc", "otcany_once": "OtcAny", "obs_once": "Observe"})
 OBJ_LEVEL = ("otcany", "otcany_once")
 MECH["dobsx"] = "Observe"
+MECH.update({"otcx": "Otc", "obsx": "Observe"})       # registered through an owner's List with an extended name
 STATIC_ID = {"any": 0, "changed": 1, "fired": 2, "dotc": 3, "dobs": 4, "dobsx": 5}
 STATICS = ("any", "changed", "fired", "dotc", "dobs", "dobsx")      # dobsx: @observe("x") def _x_changed (excludes "changed")
 CMP = {"T": C("CTrue"), "F": C("CFalse"), "R": C("CRaise")}
@@ -69,7 +71,8 @@ def to_term(case, ob):
                                                                         "equality": "MEquality"}[case["mode"]]))
     hs = [C("mkHandler", Nat(i), C(MECH[m]), i in case["raises"]) for i, m in handlers_of(case)]
     cfg = C("mkConfig", Raw("pool_eq"), Raw("pool_ne"),
-            Raw("pool_validate_any" if case.get("variant") == "any" else "pool_validate"), Nat(case["default"]), kind, hs,
+            Raw({"any": "pool_validate_any", "drange": "pool_validate_drange"}.get(case.get("variant"), "pool_validate")),
+            Nat(case["default"]), kind, hs,
             bool(case.get("orig")) and case["kind"] == "normal",
             reacts_term(case),
             {"fresh-eq": Some(Raw("fresh_eq_tbls")), "fresh-ne": Some(Raw("fresh_ne_tbls"))}.get(
@@ -278,8 +281,58 @@ def gen_case(rnd, ctx, maxlen):
     ctx.count("exception-handler:" + sinkmode)
     ctx.count("self-unregistering-handlers:%d" % (sum(1 for m in dyn if m in ONCE) +
                                                   sum(1 for op in ops if op[0] == "Register" and op[1] in ONCE)))
-    return dict(kind=kind, mode=mode, default=default, statics=statics, dyn=dyn, raises=raises, ops=ops, orig=orig,
+    case = dict(kind=kind, mode=mode, default=default, statics=statics, dyn=dyn, raises=raises, ops=ops, orig=orig,
                 variant=variant, sinkmode=sinkmode, reacts=reacts, build=build, subclass=subclass, raise_kind=raise_kind)
+    r = rnd.random()
+    if r < 0.1:
+        case = as_drange(case)
+        ctx.count("trait-variant:drange (Range with dynamic bounds)")
+    elif r < 0.25 and kind == "normal" and variant in ("", "any"):
+        case = with_extended_handler(rnd, case)
+        ctx.count("mechanism:" + case["dyn"][-1])
+    return case
+
+
+TRAIT_LEVEL = {"otc": "otcany", "obs": "otcany", "otcm": "otcany", "obsm": "otcany", "otc_once": "otcany_once",
+               "obs_once": "otcany_once"}
+REORDER = ["reassign-reversed", "reassign-same-order", "sort-in-place", "reverse-in-place"]
+
+
+def as_drange(case):
+    """The same history on a Range trait with dynamic bounds (0..10, value=5): a property-like trait; ints only, no del /
+    add_trait / comparison mode."""
+    c = dict(case, kind="normal", mode="equality", default=DRANGE_DEFAULT, orig=False, build="", variant="drange")
+    safe = DRANGE_OK + [DRANGE_REJ]
+    ops = []
+    for op in case["ops"]:
+        if op[0] in ("Assign", "QuietAssign"):
+            ops.append([op[0], safe[op[1] % len(safe)]])
+        elif op[0] in ("Delete", "Retrait", "SetMode"):
+            ops.append(["Read"])
+        else:
+            ops.append(op)
+    c["ops"] = ops
+    return c
+
+
+def with_extended_handler(rnd, case):
+    """One more handler, registered THROUGH an owner object that holds the object under test in a List: the legacy
+    extended name 'members.x' or the observe expression 'members:items:x'; the owner's list is re-assigned / re-ordered
+    with the same objects in the middle.  It is the last trait-level handler (re-hooking moves it to the end of the list)."""
+    c = dict(case)
+    c["dyn"] = list(case["dyn"]) + [rnd.choice(["otcx", "otcx", "obsx"])]
+    ops = []
+    for op in case["ops"]:
+        if op[0] == "Register" and op[1] in TRAIT_LEVEL:
+            op = ["Register", TRAIT_LEVEL[op[1]], op[2]]
+        elif op[0] == "Retrait":
+            op = ["Read"]
+        ops.append(op)
+        if rnd.random() < 0.2:
+            ops.append(["Other", rnd.choice(REORDER)])
+    c["ops"] = ops
+    c["reacts"] = [[r[0], r[1], TRAIT_LEVEL.get(r[2], r[2]), r[3]] if r[1] == "spawn" else r for r in case.get("reacts", [])]
+    return c
 
 
 def corpus():
@@ -393,6 +446,21 @@ def corpus():
                            variant=variant, ops=afresh))
             cs.append(dict(kind="normal", mode=mode, default=6, statics=[], dyn=["obs"], raises=[], variant=variant,
                            ops=[["Delete"], ["Assign", 0], ["Delete"], ["Read"]]))
+    for mode in ("none", "identity", "equality"):
+        # a handler registered through an owner's List (legacy extended name / observe expression); the list is re-assigned and
+        # re-ordered with the same objects, the handlers must go on being served
+        for ext in ("otcx", "obsx"):
+            cs.append(dict(kind="normal", mode=mode, default=6, statics=["changed"], dyn=["obs", "otc", "otcany", ext], raises=[],
+                           ops=[["Assign", 0], ["Other", "reassign-reversed"], ["Assign", 2], ["Other", "sort-in-place"], ["Assign", 0],
+                                ["Other", "reverse-in-place"], ["Assign", 1], ["Assign", 2], ["Other", "reassign-same-order"],
+                                ["Assign", 0], ["Delete"], ["Assign", 2]]))
+    # Range with dynamic bounds: first assignment of the value it already has (before any read), repeats, rejected, quiet
+    for statics, dyn in ((["any", "changed", "fired"], ["otc", "obs"]), (["dobsx"], ["otcany", "obsm"])):
+        for ops in ([["Assign", 17], ["Assign", 17], ["Assign", 18], ["Assign", 18], ["Assign", 19], ["Assign", 12], ["Read"],
+                     ["QuietAssign", 16], ["Assign", 16], ["Assign", 17], ["Other", "y"], ["Assign", 17]],
+                    [["Read"], ["Assign", 17], ["Assign", 16]], [["QuietAssign", 17], ["Assign", 17], ["Assign", 18]]):
+            cs.append(dict(kind="normal", mode="equality", default=DRANGE_DEFAULT, statics=statics, dyn=dyn, raises=[],
+                           variant="drange", ops=ops))
     # traits that store the ORIGINAL value (Expression / AdaptsTo style): trigger of F22 (repaired) so that a reversal is detected
     for mode in ("none", "identity", "equality"):
         cs.append(dict(kind="normal", mode=mode, default=6, statics=["changed"], dyn=["obs", "otc"], raises=[], orig=True,
@@ -408,10 +476,67 @@ def exhaustive(length):
     cs = []
     for kind, mode, orig in (("normal", "none", False), ("normal", "identity", False), ("normal", "equality", False),
                              ("normal", "identity", True), ("normal", "equality", True), ("event", "equality", False)):
-        for vs in itertools.product(range(NPOOL), repeat=length):
+        for vs in itertools.product(range(16), repeat=length):       # the 16 general values (the extra ints serve the Range variant)
             cs.append(dict(kind=kind, mode=mode, default=6, statics=["any", "changed", "fired", "dotc", "dobs"],
                            dyn=["obs", "otc", "otcany"], raises=[2], orig=orig, ops=[["Assign", v] for v in vs]))
     return cs
+
+
+# ---------------------------------------------------------------- the prototyped-trait scenario (Proto.v)
+PROTO_POOL = [2, 6, 9, 16, 17, 18]        # pairwise unequal values: only identity matters for a delegate trait
+PROTO_HEADER = ("From Coq Require Import ZArith List.\nFrom TV Require Import Common.Harness C02.Model C02.Law C02.Proto.\n"
+                "Definition corr_codes := C02.Proto.pcorr_codes.\nDefinition law_codes := C02.Proto.plaw_codes.")
+PROTO_CLAUSE = {2: "called-without-change", 3: "called-while-unlinked-or-read", 4: "change-not-notified", 5: "value-read-afterwards",
+                6: "old-new-untruthful"}
+
+
+def proto_handlers(case):
+    hs = [(STATIC_ID[s], s) for s in ("any", "changed") if s in case["statics"]]
+    hs += [(10 + i, m) for i, m in enumerate(case["dyn"]) if m not in OBJ_LEVEL]
+    hs += [(10 + i, m) for i, m in enumerate(case["dyn"]) if m in OBJ_LEVEL]
+    return hs
+
+
+def proto_term(case, ob):
+    hs = [C("mkHandler", Nat(i), C(MECH[m]), False) for i, m in proto_handlers(case)]
+    h = []
+    for op, st in zip(case["ops"], ob["steps"]):
+        o = {"Assign": lambda: C("PAssign", Nat(op[1])), "Proto": lambda: C("PProto", Nat(op[1])),
+             "Delete": lambda: C("PDelete"), "Read": lambda: C("PRead")}[op[0]]()
+        read = st["read"] if st["out"] == "Ok" else 998
+        h.append((o, C("mkPObs", opt(None if st["slot"] is None else Nat(st["slot"])), Nat(read), [call_t(c) for c in st["calls"]])))
+    return (hs, Nat(6), h)
+
+
+def proto_cases(rnd, ctx, n, maxlen):
+    cs = [dict(scenario="proto", statics=["any", "changed"], dyn=["otc", "obs", "otcany", "otcm"], raises=[],
+               ops=[["Read"], ["Proto", 2], ["Assign", 16], ["Assign", 16], ["Proto", 17], ["Read"], ["Proto", 17], ["Delete"],
+                    ["Proto", 18], ["Assign", 18], ["Proto", 9], ["Delete"], ["Delete"], ["Proto", 6], ["Assign", 2], ["Proto", 2],
+                    ["Delete"]]),
+          dict(scenario="proto", statics=[], dyn=["obs"], raises=[], ops=[["Assign", 16], ["Proto", 17], ["Proto", 18], ["Delete"]])]
+    for _ in range(n):
+        statics = [s for s in ("any", "changed") if rnd.random() < 0.5]
+        dyn = [rnd.choice(["otc", "obs", "otcany", "otcm", "obsm"]) for _ in range(rnd.randint(0 if statics else 1, 3))]
+        ops = []
+        for _ in range(rnd.randint(1, maxlen)):
+            r = rnd.random()
+            ops.append(["Read"] if r < 0.1 else ["Delete"] if r < 0.3 else
+                       ["Proto", rnd.choice(PROTO_POOL)] if r < 0.65 else ["Assign", rnd.choice(PROTO_POOL)])
+        cs.append(dict(scenario="proto", statics=statics, dyn=dyn, raises=[], ops=ops))
+    ctx.count("scenario:prototyped-trait histories", len(cs))
+    return cs
+
+
+def run_proto(ctx, rnd):
+    cases = proto_cases(rnd, ctx, 150 if ctx.tier == "quick" else 3000, 10 if ctx.tier == "quick" else 30)
+    return hist.run(ctx, DRIVER, cases, proto_term, PROTO_HEADER, "C02.Proto.pcase",
+                    lambda c, ob, st, cl: "prototyped/%s/%s" % (PROTO_CLAUSE.get(cl, cl), c["ops"][st][0]),
+                    lambda c, ob, st, cl: ("x = PrototypedFrom('style', prefix='caption'), handlers %r: clause %s fails at step %d (%r): "
+                                           "observed %r; history so far %r" % (proto_handlers(c), PROTO_CLAUSE.get(cl, cl), st,
+                                                                               c["ops"][st], ob["steps"][st], c["ops"][:st + 1])),
+                    lambda c, ob: (json.dumps(c, sort_keys=True), any(s["calls"] for s in ob["steps"])),
+                    relation="C02.Proto.pcorr_codes (Proto.pstep = implementation on every operation)", tag="proto") and \
+        sum(len(c["ops"]) for c in cases)
 
 
 def run(ctx):
@@ -432,6 +557,14 @@ def run(ctx):
                        "operation; non-trivial = some step calls a handler or is refused")
     rnd = random.Random(ctx.seed)
     n, maxlen = (1200, 12) if ctx.tier == "quick" else (15000, 40)
+    if ctx.replay and json.load(open(ctx.replay))["replay"]["case"].get("scenario") == "proto":
+        case = json.load(open(ctx.replay))["replay"]["case"]
+        hist.run(ctx, DRIVER, [case], proto_term, PROTO_HEADER, "C02.Proto.pcase",
+                 lambda c, ob, st, cl: "prototyped/%s/%s" % (PROTO_CLAUSE.get(cl, cl), c["ops"][st][0]),
+                 lambda c, ob, st, cl: "prototyped trait: clause %s fails at step %d: %r" % (PROTO_CLAUSE.get(cl, cl), st, ob["steps"][st]),
+                 lambda c, ob: (json.dumps(c, sort_keys=True), True), relation="C02.Proto.pcorr_codes", tag="proto")
+        proof_gate(ctx, ok, log, PROPS)
+        return
     if ctx.replay:
         cases = [json.load(open(ctx.replay))["replay"]["case"]]
     else:
@@ -452,7 +585,9 @@ def run(ctx):
         "Definition pool_ne : list (list cmp) := %s." % coq([[CMP[x] for x in row] for row in tb["ne"]]),
         "Definition pool_validate : list (option val) := %s." % coq(
             [opt(None if v is None else Nat(v)) for v in tb["validate"]]),
-        "Definition pool_validate_any : list (option val) := %s." % coq([Some(Nat(i)) for i in range(len(tb["validate"]))])] + [
+        "Definition pool_validate_any : list (option val) := %s." % coq([Some(Nat(i)) for i in range(len(tb["validate"]))]),
+        "Definition pool_validate_drange : list (option val) := %s." % coq(
+            [Some(Nat(i)) if i in DRANGE_OK else None for i in range(len(tb["validate"]))])] + [
         "Definition %s : fresh_tbl * fresh_tbl := %s." % (nm, coq(tuple(
             C("mkFresh", [CMP[x] for x in tb["fresh"][k][w]["row"]], [CMP[x] for x in tb["fresh"][k][w]["col"]],
               CMP[tb["fresh"][k][w]["other"]], CMP[tb["fresh"][k][w]["self"]]) for w in ("eq", "ne"))))
@@ -488,5 +623,6 @@ def run(ctx):
         probe = [c for c in probe if not same(c)]
     k = hist.run(ctx, DRIVER, cases, to_term, header, CASE_T, key_fn, describe, nontrivial,
                  relation="C02.Corr.corr_codes (Model.step = implementation on every operation)")
-    ctx.cov["evaluations"] = sum(len(c["ops"]) for c in cases) if k else 0
+    kp = run_proto(ctx, rnd) if not ctx.replay else 0
+    ctx.cov["evaluations"] = (sum(len(c["ops"]) for c in cases) if k else 0) + (kp or 0)
     proof_gate(ctx, ok, log, PROPS)
